@@ -248,7 +248,7 @@ pub fn impl_(ctx: &Context, input: &DeriveInput) -> TokenStream {
         }
         Data::Enum(data) => {
             let tag_ident = ctx.idents.tag.as_ref().unwrap();
-            let items = data.variants.iter().fold(quote! {}, |accum, var| {
+            let items = data.variants.iter().enumerate().fold(quote! {}, |accum, (var_index, var)| {
                 let ident = &var.ident;
                 let get_item = |i, f| {
                     let item = field_postfix(i, f);
@@ -258,9 +258,6 @@ pub fn impl_(ctx: &Context, input: &DeriveInput) -> TokenStream {
                         let ident = Ident::new(&format!("b{}", item), Span::call_site());
                         quote! { #ident }
                     }
-                };
-                let set_tag = quote! {
-                    #tag_ident::#ident.emplace_unchecked(__flatty_bytes)?;
                 };
                 let body = collect_fields(&var.fields, get_item);
                 let pat_body = var
@@ -274,12 +271,20 @@ pub fn impl_(ctx: &Context, input: &DeriveInput) -> TokenStream {
                     Fields::Unnamed(..) => quote! { (#pat_body) },
                     Fields::Named(..) => quote! { { #pat_body } },
                 };
+                let index = Index::from(var_index);
                 quote! {
                     #accum
                     #init_ident::#ident #pat => {
-                        #set_tag
                         let __flatty_offset = <#self_ident<#self_args>>::DATA_OFFSET;
-                        let __flatty_bytes = __flatty_bytes.get_unchecked_mut(__flatty_offset..);
+                        // Nothing is written until it is known that the variant fits.
+                        if __flatty_bytes.len() < __flatty_offset + <#self_ident<#self_args>>::DATA_MIN_SIZES[#index] {
+                            return Err(::flatty::Error {
+                                kind: ::flatty::error::ErrorKind::InsufficientSize,
+                                pos: __flatty_offset,
+                            });
+                        }
+                        let (__flatty_tag_bytes, __flatty_bytes) = __flatty_bytes.split_at_mut(__flatty_offset);
+                        #tag_ident::#ident.emplace_unchecked(__flatty_tag_bytes)?;
                         #body
                     }
                 }
